@@ -1,14 +1,13 @@
 (* C02 — encode_bytes / serialize equal SSZ-spec serialization.  Property theorems only.
-   Proved: (1) the offset bookkeeping of the model's sequence and container serialisers is exactly
-   the specification's ser_parts (fixed parts with 4-byte offsets, then the variable parts in
-   order) and the returned count is the length of what is written, for ANY list of element
-   encodings; (2) the leaf kinds uintN / boolean.  The tree-reading part (elements fetched through
-   getter / the iterators, packing, bit handling) is tied by the correspondence (see "partial");
-   (3) C02_constructed: for every type built from uintN, boolean, containers, unions and vectors /
-   lists of non-basic elements (`supported`), at any nesting depth, and every well-formed value, the
-   backing tree the constructor builds serialises (getter-by-gindex element reads, length / selector
-   mix-in reads, offset bookkeeping) to exactly the specification bytes and count. *)
-Require Import RM.Base RM.Types RM.Spec RM.ModelViews RM.ModelCodec RM.SerLen RM.SerProofs RM.SerProofs2 RM.CodecBasicProofs.
+   C02_constructed is the full statement: for EVERY type (uintN, boolean, bit/byte vectors and lists,
+   packed and composite vectors and lists, containers, unions, at any nesting depth) and every
+   well-formed value, the backing tree the constructor builds serialises — getter-by-gindex reads,
+   chunk slicing of packed elements, the bitlist delimiter bit, length / selector mix-in reads, offset
+   bookkeeping — to exactly the specification bytes, and the returned count is their length, for any
+   hash function.  The other theorems are its building blocks, stated for arbitrary element
+   encodings.  Backings reached by mutation rather than construction are tied by the correspondence
+   (and by C04's theorems where the mutated tree is shown to be a representation). *)
+Require Import RM.Base RM.Types RM.Spec RM.ModelViews RM.ModelCodec RM.SerLen RM.SerProofs RM.SerProofs2 RM.SerAll RM.CodecBasicProofs.
 Local Open Scope N_scope.
 
 (* variable-size elements: offsets, then the elements; count = bytes written *)
@@ -47,17 +46,20 @@ Theorem C02_bool : forall H src b nd, mk H TBool (VBool b) = Ok nd ->
   ser_impl H src TBool nd = Ok (ser TBool (VBool b), 1).
 Proof. exact ser_bool. Qed.
 
-(* the full statement for constructed values of supported types, any nesting depth, any hash *)
-Theorem C02_constructed : forall H src t v, wf_ty t = true -> supported t = true -> wf t v = true ->
+(* the full statement for constructed values of every type, any nesting depth, any hash *)
+Theorem C02_constructed : forall H src t v, wf_ty t = true -> wf t v = true ->
   exists n, mk H t v = Ok n /\ ser_impl H src t n = Ok (ser t v, lenN (ser t v)).
 Proof. exact ser_constructed_total. Qed.
 
-(* non-vacuity: a union of a container with a variable-size list field is supported and has well-formed values *)
+(* non-vacuity: nested types mixing every kind have well-formed values *)
 Example C02_constructed_nonvacuous :
-  let t := TUnion true [TContainer [TUint 8; TList (TContainer [TBool; TUint 2]) 5]; TVector (TList (TUnion false [TBool]) 3) 2] in
-  wf_ty t = true /\ supported t = true /\
-  wf t (VUnion 1 (Some (VCont [VUint 77; VSeq [VCont [VBool true; VUint 513]; VCont [VBool false; VUint 1]]]))) = true /\
-  wf t (VUnion 2 (Some (VSeq [VSeq [VUnion 0 (Some (VBool true))]; VSeq []]))) = true.
+  let t := TUnion true [TContainer [TUint 8; TList (TContainer [TBool; TUint 2; TBitlist 9]) 5; TByteVector 33];
+                        TVector (TList (TUnion false [TBool; TBitvector 3]) 3) 2; TList (TUint 2) 40] in
+  wf_ty t = true /\
+  wf t (VUnion 1 (Some (VCont [VUint 77; VSeq [VCont [VBool true; VUint 513; VBits [true; false; true]]];
+                               VBytes (repeat x01 33)]))) = true /\
+  wf t (VUnion 2 (Some (VSeq [VSeq [VUnion 1 (Some (VBits [true; true; false]))]; VSeq []]))) = true /\
+  wf t (VUnion 3 (Some (VSeq (map VUint [1; 2; 3; 65535; 4; 5; 6; 7; 8; 9; 10; 11; 12; 13; 14; 15; 16; 17])))) = true.
 Proof. vm_compute. repeat split. Qed.
 
 (* the specification's encoding length is what the type facts say (used with the counts above) *)
